@@ -1540,6 +1540,11 @@ static void emit_data(Obj *prog) {
     if (var->is_function || !var->is_definition)
       continue;
 
+    // Data of a function that is not emitted would only leave dangling
+    // references to what that function uses.
+    if (var->owner && !var->owner->is_live)
+      continue;
+
     if (var->is_static)
       println("  .local %s", var->name);
     else
